@@ -235,6 +235,47 @@ def run(module: str,
     return res
 
 
+def apalache(module: str, scratch: str, inv: str, init: str = 'Init', next_: str = 'Next', length: int = 0,
+             timeout: int = 900, name: Optional[str] = None, spec_dir: str = SPEC_DIR) -> Dict[str, object]:
+    """apalache-mc check of an invariant (bounded symbolic model checking over unbounded integers).
+    outcome: 'NoError' | 'Error' (counterexample found) | 'timeout' | 'unavailable' | 'failed'"""
+    name = name or (module + '-' + inv)
+    run_dir = os.path.join(scratch, 'apalache-' + name)
+    os.makedirs(run_dir, exist_ok=True)
+    for f in os.listdir(spec_dir):
+        if f.endswith('.tla'):
+            shutil.copy(os.path.join(spec_dir, f), run_dir)
+    exe = shutil.which('apalache-mc') or '/opt/veriftools/apalache/bin/apalache-mc'
+    cmd = [exe, 'check', '--init=' + init, '--next=' + next_, '--inv=' + inv, '--length=%d' % length,
+           '--out-dir=' + os.path.join(run_dir, 'out'), module + '.tla']
+    if not os.path.exists(exe):
+        return dict(module=module, name=name, engine='apalache', outcome='unavailable', wall_s=0, cmd=' '.join(cmd))
+    e = dict(os.environ)
+    e.pop('JAVA_TOOL_OPTIONS', None)
+    e['JVM_ARGS'] = '-Xmx4g -Djava.io.tmpdir=' + run_dir
+    e['TMPDIR'] = run_dir
+    t0 = time.time()
+    try:
+        p = subprocess.run(cmd, cwd=run_dir, env=e, stdout=subprocess.PIPE, stderr=subprocess.STDOUT, timeout=timeout,
+                           text=True, errors='replace', start_new_session=True)
+        out = p.stdout
+        if 'The outcome is: NoError' in out:
+            outcome = 'NoError'
+        elif 'The outcome is: Error' in out and 'invariant' in out and 'violated' in out:
+            outcome = 'Error'
+        else:
+            outcome = 'failed'
+    except subprocess.TimeoutExpired as ex:
+        out = (ex.stdout or b'').decode('utf-8', 'replace') if isinstance(ex.stdout, bytes) else (ex.stdout or '')
+        outcome = 'timeout'
+        subprocess.run(['pkill', '-f', run_dir], stdout=subprocess.DEVNULL, stderr=subprocess.DEVNULL)
+    with open(os.path.join(run_dir, 'apalache.out'), 'w') as fh:
+        fh.write(out)
+    return dict(module=module, name=name, engine='apalache', inv=inv, init=init, length=length, outcome=outcome,
+                wall_s=round(time.time() - t0, 1), cmd=' '.join(cmd).replace(run_dir, '<scratch>'),
+                excerpt=out[-1500:] if outcome == 'failed' else None)
+
+
 def sany(path: str) -> bool:
     p = subprocess.run(['java', '-cp', TLA_CP, 'tla2sany.SANY', os.path.basename(path)],
                        cwd=os.path.dirname(path), stdout=subprocess.PIPE, stderr=subprocess.STDOUT, text=True)
